@@ -21,7 +21,7 @@ Err(n, s) == [e |-> n, s |-> s]
 \* python integer index into a sequence of length n (negative counts from the end)
 PyIdx(i, n) == IF i < 0 THEN i + n ELSE i
 
-NFRes(dd, left) == LET r == NFAlg(dd, left, 30) IN
+NFRes(dd, left) == LET n == Len(dd.boxes) r == NFAlg(dd, left, 4 + n * n * n) IN
                    IF r.e = "" THEN r ELSE Err("NotImplementedError", dd)
 
 ApiRes(dd, c) ==
